@@ -322,7 +322,8 @@ def writeView (s : State) (r : Rep) (f : List UInt8 → List UInt8) : State × R
     | some x =>
       let w := (x.data.drop off).take len
       let data' := x.data.take off ++ f w ++ x.data.drop (off + len)
-      (setI s owner { x with data := data' }, .heap owner ptrBuf off len, [Event.write x.buf off (off + len)])
+      (setI s owner { x with data := data' }, .heap owner ptrBuf off len,
+        if len > 0 then [Event.write x.buf off (off + len)] else [])
     | none => (s, r, [])
 
 def setAt (bs : List UInt8) (i : Nat) (b : UInt8) : List UInt8 := bs.set i b
@@ -665,9 +666,9 @@ def step (cfg : Cfg) (s : State) (op : Op) : State × Out :=
     match getH s h with
     | some hd =>
       let (s1, (data, cap, buf), ev1) := takeVec cfg s h hd
-      let (_, _, buf', next', ev2) := vecApply data cap buf s1.nextBuf script
-      -- the guard is forgotten: the value stays empty, the Vec leaks
-      ok { s1 with nextBuf := next' } .unit (ev1 ++ ev2 ++ [Event.exportBuf buf'])
+      let (_, cap', buf', next', ev2) := vecApply data cap buf s1.nextBuf script
+      -- the guard is forgotten: the value stays empty, the Vec leaks (a capacity-0 Vec owns no buffer)
+      ok { s1 with nextBuf := next' } .unit (ev1 ++ ev2 ++ (if cap' > 0 then [Event.exportBuf buf'] else []))
     | none => ok s .badOp []
   | .intoOwned h d =>
     match getH s h with
@@ -689,7 +690,7 @@ def step (cfg : Cfg) (s : State) (op : Op) : State × Out :=
         | some x =>
           if off == 0 && ownerUnique cfg s owner then
             ok (setH (setI s owner { x with live := false }) h none) (.bytes (x.data.take len))
-              [Event.freeInner owner, Event.exportBuf x.buf]
+              (Event.freeInner owner :: (if x.cap > 0 then [Event.exportBuf x.buf] else []))
           else ok s (.bool false) []
         | none => ok s (.bool false) []
       | _ => ok s (.bool false) []
@@ -704,7 +705,7 @@ def step (cfg : Cfg) (s : State) (op : Op) : State × Out :=
           | some x =>
             if off == 0 && ownerUnique cfg s owner then
               some (ok (setH (setI s owner { x with live := false }) h none) (.bytes (x.data.take len))
-                [Event.freeInner owner, Event.exportBuf x.buf])
+                (Event.freeInner owner :: (if x.cap > 0 then [Event.exportBuf x.buf] else [])))
             else none
           | none => none
         | _ => none
